@@ -11,7 +11,7 @@ import sys
 
 sys.path.insert(0, os.path.dirname(os.path.abspath(__file__)))
 import refchk  # noqa: E402
-from common import REPO, Outcome, Rng, err_class, hx, load_spec, run_driver  # noqa: E402
+from common import REPO, Outcome, Rng, err_class, hx, load_spec, run_driver, shared_io  # noqa: E402
 from mapgen import MapGen  # noqa: E402
 
 logging.disable(logging.CRITICAL)
@@ -22,7 +22,7 @@ def real_cycle(data):
     from richchk.io.richchk.richchk_io import RichChkIo
 
     try:
-        out = ChkIo().encode_chk_to_bytes(RichChkIo().encode_chk(RichChkIo().decode_chk(ChkIo().decode_chk_binary_data(data))))
+        out = shared_io()[0].encode_chk_to_bytes(shared_io()[1].encode_chk(shared_io()[1].decode_chk(shared_io()[0].decode_chk_binary_data(data))))
     except Exception as ex:  # noqa: BLE001
         return None, err_class(ex)
     return out, None
@@ -187,9 +187,9 @@ def run(prop, tier, seed):
                                            key="strx-non-7bit-byte-rejected" if (rl == "ERR unicode" and non7 and tag.startswith("witness")) else None,
                                            diff="load/save raises (%s) on this map but succeeds once its unsupported sections / trigger entries are removed" % rl))
         if res is None:
-            if tag.startswith(("editor", "fixture")) and prop in ("C02", "C03"):
-                key = "uprp-full-save-raises" if False else None
-                out.violations.append(dict(base, oracle="an editor-form map loads and saves", got=rl[:60], key=key))
+            if tag.startswith(("editor", "fixture")) and prop in ("C02", "C03", "C10"):
+                # (for C10: content of a map that cannot be saved at all did not pass through)
+                out.violations.append(dict(base, oracle="an editor-form map loads and saves", got=rl[:60], key=None))
             continue
         if prop == "C03":
             if tag.startswith(("editor", "fixture")) and res != data:
